@@ -7,7 +7,7 @@
 
 A UOD spec is plain data (JSON-able):
     {"tags": [[name, unit|None, value]],
-     "cmds": [{"name":…, "kind": "number"|"categorical"|"text"|"noargs"|"default"|"custom", …params}],
+     "cmds": [{"name":…, "kind": "number"|"categorical"|"text"|"rawregex"|"noargs"|"default"|"custom", …params}],
      "base": "none" | "volume" | "cv"}
 Exec functions complete at once; the custom parser accepts digit strings only (returns None otherwise).
 Nothing in /repo is edited; `time.time` is virtual (harness.engine_run.Clock).
@@ -39,6 +39,8 @@ def command_regex(c: dict) -> str | None:
         return R.RegexCategorical(exclusive_options=c.get("exclusive"), additive_options=c.get("additive"))
     if k == "text":
         return R.RegexText(allow_empty=c.get("allow_empty", False))
+    if k == "rawregex":
+        return c["regex"]          # a uod author's own expression, passed on as it is
     return None
 
 
@@ -90,9 +92,11 @@ def make_engine(spec: dict):
 
 
 class Published:
-    def __init__(self, definition, engine_side: dict):
+    def __init__(self, definition, engine_side: dict, parse_fns: dict | None = None, wire: dict | None = None):
+        self.wire = wire                      # the serialised UodInfoMsg as it travels to the aggregator
         self.definition = definition          # protocol.models.UodDefinition as the aggregator/LSP receives it
         self.engine_side = engine_side        # what the engine itself uses (for the model's `publish` stream)
+        self.parse_fns = parse_fns or {}      # command name -> the arg_parse_fn UodCommand.parse_args calls (or None)
 
 
 def publish(spec: dict) -> Published:
@@ -133,15 +137,80 @@ def publish(spec: dict) -> Published:
                 "base_units": list(uod.base_unit_provider.get_units()),
                 "keywords": sorted(PcodeParser().instruction_name_map.keys()),
             }
-            return Published(definition, engine_side)
+            return Published(definition, engine_side,
+                             {name: builder.arg_parse_fn for name, builder in uod.command_factories.items()}, wire)
         finally:
             engine.cleanup()
     finally:
         clock.uninstall()
 
 
+_AGG = None
+_AGG_ENGINES = 0
+_REAL_FETCH = None
+
+
+def _remember_real_fetch() -> None:
+    """`analysis_input` replaces lsp_analysis.fetch_uod_info; keep the module's own function for the aggregator route"""
+    global _REAL_FETCH
+    from openpectus.lsp import lsp_analysis
+    if _REAL_FETCH is None:
+        if getattr(lsp_analysis.fetch_uod_info, "__name__", "") != "fetch_uod_info":
+            raise RuntimeError("lsp_analysis.fetch_uod_info was replaced before the harness saw it")
+        _REAL_FETCH = lsp_analysis.fetch_uod_info
+
+
+def via_aggregator(pubs: list):
+    """The definition and the analysis input the editor gets when the engine's UodInfo messages (`pubs`, in order — e.g.
+    the one of an earlier uod version and then, after a re-registration, the current one) travel through a real in-process aggregator
+    (harness/agg_common.py): registration, `handle_UodInfoMsg` per message, then `lsp_analysis.fetch_uod_info` /
+    `create_analysis_input` exactly as `lint` calls them.  Returns (definition, analysis input)."""
+    global _AGG, _AGG_ENGINES, _REAL_FETCH
+    import openpectus.aggregator.deps as agg_deps
+    from harness.agg_common import AggHarness, run
+    from openpectus.lsp import lsp_analysis
+    from openpectus.protocol import serialization
+    _remember_real_fetch()
+    if _AGG is None:
+        _AGG = AggHarness()
+    _AGG_ENGINES += 1
+    engine = _AGG_ENGINES
+    eid = _AGG.eid(engine)
+    saved_server, saved_fetch = agg_deps._server, lsp_analysis.fetch_uod_info
+    agg_deps._server = _AGG.agg
+    lsp_analysis.fetch_uod_info = _REAL_FETCH
+    try:
+        reply = _AGG.register(engine)
+        if not getattr(reply, "success", False):
+            raise RuntimeError(f"registration refused: {reply!r}")
+        for k, p in enumerate(pubs):
+            if k > 0:
+                # the engine comes back (e.g. restarted with a new uod version) while the aggregator still holds its data
+                reply = _AGG.register(engine)
+                if not getattr(reply, "success", False):
+                    raise RuntimeError(f"registration refused: {reply!r}")
+            msg = serialization.deserialize(json.loads(json.dumps(p.wire)))
+            msg.engine_id = eid      # type: ignore[attr-defined]
+            reply = run(_AGG.handlers.handle_UodInfoMsg(msg))
+            if type(reply).__name__ != "SuccessMessage":
+                raise RuntimeError(f"UodInfo refused: {reply!r}")
+        lsp_analysis.create_analysis_input.cache_clear()
+        definition = lsp_analysis.fetch_uod_info(eid)
+        inp = lsp_analysis.create_analysis_input(eid)
+        return definition, inp
+    finally:
+        try:
+            _AGG.disconnect(engine)
+        except Exception:  # noqa: BLE001
+            pass
+        agg_deps._server = saved_server
+        lsp_analysis.fetch_uod_info = saved_fetch
+        lsp_analysis.create_analysis_input.cache_clear()
+
+
 def analysis_input(definition):
     from openpectus.lsp import lsp_analysis
+    _remember_real_fetch()
     lsp_analysis.create_analysis_input.cache_clear()
     lsp_analysis.fetch_uod_info = lambda _eid: definition
     return lsp_analysis.create_analysis_input("c20-engine")
